@@ -57,3 +57,152 @@ def readAttrXml (s : List Char) : Option (List Char) :=
   if s.all isXmlChar then some (unescape ((normAttrWs s).takeWhile (· ≠ '"'))) else none
 
 end Genshi.Subst
+
+/-! ### the document reader
+
+  A character-at-a-time state machine (so that it composes over concatenation): character
+  data, start tags with double-quoted attributes, `/>` and ` />`, end tags.  Names end at
+  white space, `/`, `>`, `=`; anything the serializers never write (comments, processing
+  instructions, CDATA, doctype, single-quoted or unquoted attribute values, a tag that is not
+  closed) makes the reader give up (`none`).  Under html an element of the generated void
+  list is complete without an end tag. -/
+namespace Genshi.Subst
+open Genshi.Escape Genshi.Str
+
+inductive Mode where
+  | text        -- character data
+  | lt          -- just after `<`
+  | closeName   -- after `</`
+  | openName    -- reading the element name of a start tag
+  | attrName    -- after white space inside a start tag
+  | attrEq      -- after `=`
+  | attrVal     -- inside the double quotes
+  | inTag       -- after the closing quote of an attribute value
+  | slash       -- after `/` inside a start tag
+  deriving Repr, DecidableEq, Inhabited
+
+structure RS where
+  mode : Mode
+  buf : List Char                    -- raw character data / name / attribute value being read
+  tag : Name                         -- name of the start tag being read
+  attrs : List (Name × List Char)    -- its attributes so far
+  aname : Name                       -- name of the attribute being read
+  out : List Ev                      -- what has been read
+  deriving Repr, Inhabited
+
+def isNameChar (c : Char) : Bool :=
+  !(c = '<' || c = '>' || c = '/' || c = '=' || c = '"' || c = '\'' || c = '&' ||
+    c = ' ' || c = '\t' || c = '\n' || c = '\r')
+
+/-- pending character data becomes one text event, references decoded; nothing if empty -/
+def flushText (raw : List Char) : List Ev :=
+  if raw.isEmpty then [] else [.text (unescape raw) false]
+
+/-- the events of a completed start tag -/
+def startEvents (m : Method) (t : Name) (attrs : List (Name × List Char)) : List Ev :=
+  if m = .html && (voidElems .html).contains t then [.start t attrs, .end_ t] else [.start t attrs]
+
+def step (m : Method) (st : RS) (c : Char) : Option RS :=
+  match st.mode with
+  | .text =>
+      if c = '<' then some { st with mode := .lt, buf := [], out := st.out ++ flushText st.buf }
+      else some { st with buf := st.buf ++ [c] }
+  | .lt =>
+      if c = '/' then some { st with mode := .closeName, buf := [] }
+      else if isNameChar c then some { st with mode := .openName, buf := [c] }
+      else none
+  | .closeName =>
+      if c = '>' then
+        (if st.buf.isEmpty then none
+         else some { st with mode := .text, buf := [], out := st.out ++ [.end_ st.buf] })
+      else if isNameChar c then some { st with buf := st.buf ++ [c] }
+      else none
+  | .openName =>
+      if isNameChar c then some { st with buf := st.buf ++ [c] }
+      else if c = ' ' then some { st with mode := .attrName, tag := st.buf, attrs := [], aname := [], buf := [] }
+      else if c = '/' then some { st with mode := .slash, tag := st.buf, attrs := [], buf := [] }
+      else if c = '>' then
+        some { st with mode := .text, buf := [], out := st.out ++ startEvents m st.buf [] }
+      else none
+  | .attrName =>
+      if isNameChar c then some { st with aname := st.aname ++ [c] }
+      else if c = '=' then (if st.aname.isEmpty then none else some { st with mode := .attrEq })
+      else if c = '/' then (if st.aname.isEmpty then some { st with mode := .slash } else none)
+      else none
+  | .attrEq =>
+      if c = '"' then some { st with mode := .attrVal, buf := [] } else none
+  | .attrVal =>
+      if c = '"' then
+        some { st with mode := .inTag, buf := [], attrs := st.attrs ++ [(st.aname, unescape st.buf)] }
+      else some { st with buf := st.buf ++ [c] }
+  | .inTag =>
+      if c = ' ' then some { st with mode := .attrName, aname := [] }
+      else if c = '/' then some { st with mode := .slash }
+      else if c = '>' then
+        some { st with mode := .text, buf := [], out := st.out ++ startEvents m st.tag st.attrs }
+      else none
+  | .slash =>
+      if c = '>' then
+        some { st with mode := .text, buf := [], out := st.out ++ [.start st.tag st.attrs, .end_ st.tag] }
+      else none
+
+def initRS : RS := { mode := .text, buf := [], tag := [], attrs := [], aname := [], out := [] }
+
+def run (m : Method) (st : RS) (s : List Char) : Option RS := s.foldlM (step m) st
+
+/-- re-read a document: the START / END / TEXT events it denotes (text merged and decoded);
+    `none`: not in the language -/
+def readDoc (m : Method) (s : List Char) : Option (List Ev) :=
+  match run m initRS s with
+  | some st => if st.mode = .text then some (st.out ++ flushText st.buf) else none
+  | none => none
+
+end Genshi.Subst
+
+/-! ### the output language, before any knowledge of escaping
+
+  What the serializers write is a sequence of raw tokens: character data, start tags with
+  raw (already escaped) attribute values, empty-element forms, end tags.  `absorb` says what
+  the reader makes of such a sequence. -/
+namespace Genshi.Subst
+open Genshi.Escape Genshi.Str
+
+inductive RTok where
+  | text (raw : List Char)
+  | open (tag : Name) (attrs : List (Name × List Char))
+  | empty (tag : Name) (attrs : List (Name × List Char))
+  | close (tag : Name)
+  deriving Repr, DecidableEq, Inhabited
+
+def attrRaw (n : Name) (raw : List Char) : List Char := ' ' :: (n ++ ('=' :: '"' :: (raw ++ ['"'])))
+
+def attrsRaw (attrs : List (Name × List Char)) : List Char := attrs.flatMap fun p => attrRaw p.1 p.2
+
+def emitRTok (m : Method) : RTok → List Char
+  | .text raw => raw
+  | .open t a => '<' :: (t ++ (attrsRaw a ++ ['>']))
+  | .close t => '<' :: '/' :: (t ++ ['>'])
+  | .empty t a =>
+      match m with
+      | .xml => '<' :: (t ++ (attrsRaw a ++ ['/', '>']))
+      | .xhtml =>
+          if (voidElems .xhtml).contains t then '<' :: (t ++ (attrsRaw a ++ [' ', '/', '>']))
+          else '<' :: (t ++ (attrsRaw a ++ '>' :: '<' :: '/' :: (t ++ ['>'])))
+      | .html =>
+          if (voidElems .html).contains t then '<' :: (t ++ (attrsRaw a ++ ['>']))
+          else '<' :: (t ++ (attrsRaw a ++ '>' :: '<' :: '/' :: (t ++ ['>'])))
+
+def decodeAttrs (a : List (Name × List Char)) : List (Name × List Char) :=
+  a.map fun p => (p.1, unescape p.2)
+
+/-- (events read so far, pending raw character data) after one more raw token -/
+def absorb (m : Method) (acc : List Ev × List Char) : RTok → List Ev × List Char
+  | .text raw => (acc.1, acc.2 ++ raw)
+  | .open t a => (acc.1 ++ flushText acc.2 ++ startEvents m t (decodeAttrs a), [])
+  | .close t => (acc.1 ++ flushText acc.2 ++ [.end_ t], [])
+  | .empty t a => (acc.1 ++ flushText acc.2 ++ [.start t (decodeAttrs a), .end_ t], [])
+
+def absorbAll (m : Method) (acc : List Ev × List Char) (toks : List RTok) : List Ev × List Char :=
+  toks.foldl (absorb m) acc
+
+end Genshi.Subst
